@@ -139,6 +139,15 @@ Theorem C04_account_meta_pit_partial : forall L l d a pit,
 Proof. exact c04_account_meta_pit_partial. Qed.
 Print Assumptions C04_account_meta_pit_partial.
 
+(* the LISTING of accounts as of a date (GetAccountsWithVolumes / CountAccounts with a PIT): an account whose metadata changed
+   twice before the date is listed twice, once per revision (F-C04j); the oracle knows it once, with its latest metadata *)
+Theorem C04_accounts_listing_pit_refuted : exists L l d pit,
+  run L = Some d /\ several_revisions_before (ledger_logs l L) pit = true /\
+  list_accounts_pit d l pit = [(1, Some [(3, 5)]); (1, Some [(3, 4)])]%N /\
+  replay_account_meta (ledger_logs l L) 1 (Some pit) = Some [(3, 5)]%N.
+Proof. exact c04_accounts_listing_pit_refuted. Qed.
+Print Assumptions C04_accounts_listing_pit_refuted.
+
 (* ---- transactions (current): row, metadata, reverted flag ------------------------------------------------------------------------ *)
 Definition C04_tx_statement : Prop := forall L l d id,
   run L = Some d -> tx_view_equiv (get_transaction d l id) (replay_tx (ledger_logs l L) id None).
